@@ -21,8 +21,8 @@ def stamp2(i):
     return bytes(b ^ 0xFF for b in stamp(i))
 
 
-def build_side(tracks, spt, title):
-    total = min(1023, tracks * spt)
+def build_side(tracks, spt, title, large=False):
+    total = tracks * spt if large else min(1023, tracks * spt)       # large: the 11-bit sector count of a Watford-style 80x18 disc
     cat = discs.AbsCat(title, 0, 0, total, [])
     return cat.sectors()
 
@@ -102,6 +102,14 @@ def run(ctx):
             for (t, s_) in ((0, 2), (tracks - 1, spt - 1), (tracks // 2, 1)):
                 cases.append(vlib.Case('blank2-%d-%d-%02x' % (tracks, spt, fillb), {bname: bytes(img)}, ['--file', '@' + bname, 'dump-sector', '0', str(t), str(s_)],
                                        meta={'kind': 'il', 'tracks': tracks, 'spt': spt, 'sides': 2, 'want': (2 * t) * spt + s_, 'pt': (0, t, s_), 'blank2': True}))
+    # an 80-track double-density disc whose catalogue records all 1440 sectors (bit 10 of the count in sector 1 byte 6)
+    n_side = 80 * 18
+    img = bytearray(b''.join(stamp(i) for i in range(n_side)))
+    a, b = build_side(80, 18, b'LARGE', large=True)
+    img[0:512] = a + b
+    for (t, s_) in ((0, 2), (34, 17), (35, 0), (40, 3), (79, 17)):
+        cases.append(vlib.Case('large-80-18', {'l.sdd': bytes(img)}, ['--file', '@l.sdd', 'dump-sector', '0', str(t), str(s_)],
+                               meta={'kind': 'ni', 'tracks': 80, 'spt': 18, 'sides': 1, 'want': t * 18 + s_, 'pt': (0, t, s_), 'large': True}))
     # truncated images (the file stops before the end of the surface, at lengths that are not multiples of anything convenient):
     # sectors that exist read correctly, sectors beyond the end of the file fail
     for (tracks, spt, keep_sectors, extra) in ((40, 10, 37, 0), (40, 10, 100, 100), (80, 10, 33, 255), (40, 18, 50, 0), (80, 18, 17, 1)):
@@ -182,6 +190,8 @@ def run(ctx):
         if i['exit'] != 0 or got != want:
             if m.get('blank2'):
                 key = 'blank-second-side'
+            elif m.get('large'):
+                key = 'large-sector-count'
             elif m['kind'] == 'ni' and m.get('sides') == 2:
                 key = 'two-sided-noninterleaved'
             elif m.get('spt') == 16:
